@@ -33,7 +33,18 @@ typedef struct {
 	sqfs_data_reader_t *data;
 	sqfs_dir_reader_t *rd;
 	sqfs_id_table_t *id;
+
+	/* inode numbers of this directory and all directories above it */
+	sqfs_u32 *ancestors;
+	size_t num_ancestors;
 } iterator_t;
+
+static int create_iterator(sqfs_dir_reader_t *rd, sqfs_id_table_t *id,
+			   sqfs_data_reader_t *data,
+			   sqfs_xattr_reader_t *xattr,
+			   const sqfs_inode_generic_t *inode,
+			   const iterator_t *parent,
+			   sqfs_dir_iterator_t **out);
 
 static int it_next(sqfs_dir_iterator_t *base, sqfs_dir_entry_t **out)
 {
@@ -114,8 +125,13 @@ static int it_open_subdir(sqfs_dir_iterator_t *base, sqfs_dir_iterator_t **out)
 		return SQFS_ERROR_NOT_DIR;
 	}
 
-	return sqfs_dir_iterator_create(it->rd, it->id, it->data, it->xattr,
-					it->inode, out);
+	for (size_t i = 0; i < it->num_ancestors; ++i) {
+		if (it->ancestors[i] == it->inode->base.inode_number)
+			return SQFS_ERROR_LINK_LOOP;
+	}
+
+	return create_iterator(it->rd, it->id, it->data, it->xattr,
+			       it->inode, it, out);
 }
 
 static void it_ignore_subdir(sqfs_dir_iterator_t *it)
@@ -166,17 +182,19 @@ static void it_destroy(sqfs_object_t *obj)
 	sqfs_drop(it->rd);
 	sqfs_drop(it->data);
 	sqfs_drop(it->xattr);
+	free(it->ancestors);
 	sqfs_free(it);
 }
 
-int sqfs_dir_iterator_create(sqfs_dir_reader_t *rd,
-			     sqfs_id_table_t *id,
-			     sqfs_data_reader_t *data,
-			     sqfs_xattr_reader_t *xattr,
-			     const sqfs_inode_generic_t *inode,
-			     sqfs_dir_iterator_t **out)
+static int create_iterator(sqfs_dir_reader_t *rd, sqfs_id_table_t *id,
+			   sqfs_data_reader_t *data,
+			   sqfs_xattr_reader_t *xattr,
+			   const sqfs_inode_generic_t *inode,
+			   const iterator_t *parent,
+			   sqfs_dir_iterator_t **out)
 {
 	sqfs_dir_iterator_t *base;
+	size_t pcount = 0;
 	iterator_t *it;
 	int ret;
 
@@ -188,8 +206,26 @@ int sqfs_dir_iterator_create(sqfs_dir_reader_t *rd,
 
 	sqfs_object_init(it, it_destroy, NULL);
 
+	if (parent != NULL)
+		pcount = parent->num_ancestors;
+
+	it->ancestors = alloc_array(sizeof(it->ancestors[0]), pcount + 1);
+	if (it->ancestors == NULL) {
+		sqfs_free(it);
+		return SQFS_ERROR_ALLOC;
+	}
+
+	if (pcount > 0) {
+		memcpy(it->ancestors, parent->ancestors,
+		       pcount * sizeof(it->ancestors[0]));
+	}
+
+	it->ancestors[pcount] = inode->base.inode_number;
+	it->num_ancestors = pcount + 1;
+
 	ret = sqfs_dir_reader_open_dir(rd, inode, &it->state, 0);
 	if (ret) {
+		free(it->ancestors);
 		sqfs_free(it);
 		return ret;
 	}
@@ -212,4 +248,14 @@ int sqfs_dir_iterator_create(sqfs_dir_reader_t *rd,
 
 	*out = base;
 	return 0;
+}
+
+int sqfs_dir_iterator_create(sqfs_dir_reader_t *rd,
+			     sqfs_id_table_t *id,
+			     sqfs_data_reader_t *data,
+			     sqfs_xattr_reader_t *xattr,
+			     const sqfs_inode_generic_t *inode,
+			     sqfs_dir_iterator_t **out)
+{
+	return create_iterator(rd, id, data, xattr, inode, NULL, out);
 }
